@@ -1,0 +1,86 @@
+//! Verification hooks, compiled only with `--cfg bmwill_anemo_verif`.
+//!
+//! Everything in here is inert unless a deterministic simulator has installed a context on the
+//! *current thread*; without the cfg flag the module does not exist at all.
+
+use std::cell::{Cell, RefCell};
+use std::collections::BTreeMap;
+use std::sync::Arc;
+use std::time::Duration;
+
+/// Transport seam handed to the next `Endpoint::new` call made on this thread.
+pub struct Transport {
+    pub socket: Arc<dyn quinn::AsyncUdpSocket>,
+    pub runtime: Arc<dyn quinn::Runtime>,
+    pub rng_seed: [u8; 32],
+}
+
+thread_local! {
+    static ACTIVE: Cell<bool> = const { Cell::new(false) };
+    static NEXT_TRANSPORT: RefCell<Option<Transport>> = const { RefCell::new(None) };
+    static JITTER: RefCell<BTreeMap<[u8; 32], Duration>> = const { RefCell::new(BTreeMap::new()) };
+    static ORDER_STATE: Cell<Option<u64>> = const { Cell::new(None) };
+}
+
+/// Marks the current thread as running under a simulator (or not). Resets all per-run state.
+pub fn set_active(active: bool) {
+    ACTIVE.with(|a| a.set(active));
+    NEXT_TRANSPORT.with(|n| *n.borrow_mut() = None);
+    JITTER.with(|j| j.borrow_mut().clear());
+    ORDER_STATE.with(|o| o.set(None));
+}
+
+pub fn active() -> bool {
+    ACTIVE.with(|a| a.get())
+}
+
+pub fn set_next_transport(transport: Transport) {
+    NEXT_TRANSPORT.with(|n| *n.borrow_mut() = Some(transport));
+}
+
+pub(crate) fn take_next_transport() -> Option<Transport> {
+    if !active() {
+        return None;
+    }
+    NEXT_TRANSPORT.with(|n| n.borrow_mut().take())
+}
+
+/// Fixes the connectivity-check jitter of the network with the given PeerId.
+pub fn set_jitter(peer_id: crate::PeerId, jitter: Duration) {
+    JITTER.with(|j| {
+        j.borrow_mut().insert(peer_id.0, jitter);
+    });
+}
+
+pub(crate) fn jitter(peer_id: &crate::PeerId) -> Option<Duration> {
+    if !active() {
+        return None;
+    }
+    JITTER.with(|j| j.borrow().get(&peer_id.0).copied())
+}
+
+/// Seeds the order in which eligible known peers are considered for background dials.
+pub fn set_dial_order_seed(seed: u64) {
+    ORDER_STATE.with(|o| o.set(Some(seed | 1)));
+}
+
+/// Canonical (sorted by PeerId) order followed by a seeded shuffle. Any order is a legal
+/// behaviour of the unhooked code, which iterates a `HashMap`.
+pub(crate) fn order_eligible(mut eligible: Vec<crate::types::PeerInfo>) -> Vec<crate::types::PeerInfo> {
+    if !active() {
+        return eligible;
+    }
+    eligible.sort_by(|a, b| a.peer_id.cmp(&b.peer_id));
+    if let Some(mut state) = ORDER_STATE.with(|o| o.get()) {
+        for i in (1..eligible.len()).rev() {
+            // xorshift64*
+            state ^= state >> 12;
+            state ^= state << 25;
+            state ^= state >> 27;
+            let r = state.wrapping_mul(0x2545_F491_4F6C_DD1D);
+            eligible.swap(i, (r % (i as u64 + 1)) as usize);
+        }
+        ORDER_STATE.with(|o| o.set(Some(state | 1)));
+    }
+    eligible
+}
